@@ -564,8 +564,8 @@ func onStorePrims(src map[string]fnSig) map[string]fnSig {
 	for k, v := range src {
 		if v.stateful || v.reads {
 			v.coq = "os_" + v.coq
-			if v.reads && strings.HasPrefix(v.coq, "os_str_") {
-				v.impure = true
+			if v.reads && !strings.HasSuffix(v.coq, "_now") && !strings.HasSuffix(v.coq, "_wall") {
+				v.impure = true // the generated accessors return an outcome (they can panic)
 			}
 		}
 		out[k] = v
@@ -752,6 +752,20 @@ var modules = map[string]*moduleSpec{
 		imports:  "lib.Prelude lib.GoSdk GeneratedFns GeneratedStreamTypes model.StreamStoreWorld",
 		typesMod: "", keeperMod: "GeneratedStreamKeeperOnStore", listName: "stream_keeper_onstore_other_functions",
 		msgTypes: []string{"MsgCreateStream", "MsgClaimStream", "MsgTopUpDeposit", "MsgUpdateFlowRate", "MsgCancelStream"}},
+	"wrkchainonstore": {name: "wrkchain", pbFiles: []string{"wrkchain.pb.go", "tx.pb.go", "genesis.pb.go", "query.pb.go"}, typeFuncs: [][2]string{{"params.go", "validateFeeDenom"}, {"params.go", "validateFeeRegister"}, {"params.go", "validateFeeRecord"}, {"params.go", "validateFeePurchaseStorage"}, {"params.go", "validateDefaultStorageLimit"}, {"params.go", "validateMaxStorageLimit"}, {"params.go", "Params.Validate"}}, goFiles: []string{"register.go", "record.go", "msg_server.go"},
+		want: []string{"QuickCheckHeightIsNew", "GetMaxPurchasableSlots", "IncreaseInStateStorage", "RegisterNewWrkChain", "RecordNewWrkchainHashes",
+			"RegisterWrkChain", "RecordWrkChainBlock", "PurchaseWrkChainStateStorage", "UpdateParams"},
+		prims: onStorePrims(registryPrims("WrkChain", "WrkChainBlock")), consts: registryConsts, world: "wsworld",
+		imports:  "lib.Prelude lib.GoSdk GeneratedWrkchainTypes model.WrkchainStoreWorld",
+		typesMod: "", keeperMod: "GeneratedWrkchainKeeperOnStore", listName: "wrkchain_keeper_onstore_other_functions",
+		msgTypes: []string{"MsgRegisterWrkChain", "MsgRecordWrkChainBlock", "MsgPurchaseWrkChainStateStorage"}},
+	"beacononstore": {name: "beacon", pbFiles: []string{"beacon.pb.go", "tx.pb.go", "genesis.pb.go", "query.pb.go"}, typeFuncs: [][2]string{{"params.go", "validateFeeDenom"}, {"params.go", "validateFeeRegister"}, {"params.go", "validateFeeRecord"}, {"params.go", "validateFeePurchaseStorage"}, {"params.go", "validateDefaultStorageLimit"}, {"params.go", "validateMaxStorageLimit"}, {"params.go", "Params.Validate"}}, goFiles: []string{"register.go", "record.go", "msg_server.go"},
+		want: []string{"GetMaxPurchasableSlots", "IncreaseInStateStorage", "RegisterNewBeacon", "RecordNewBeaconTimestamp",
+			"RegisterBeacon", "RecordBeaconTimestamp", "PurchaseBeaconStateStorage", "UpdateParams"},
+		prims: onStorePrims(registryPrims("Beacon", "BeaconTimestamp")), consts: registryConsts, world: "bsworld",
+		imports:  "lib.Prelude lib.GoSdk GeneratedBeaconTypes model.BeaconStoreWorld",
+		typesMod: "", keeperMod: "GeneratedBeaconKeeperOnStore", listName: "beacon_keeper_onstore_other_functions",
+		msgTypes: []string{"MsgRegisterBeacon", "MsgRecordBeaconTimestamp", "MsgPurchaseBeaconStateStorage"}},
 	"wrkchain": {name: "wrkchain", pbFiles: []string{"wrkchain.pb.go", "tx.pb.go", "genesis.pb.go", "query.pb.go"}, rootFiles: []string{"genesis.go"}, typeFuncs: [][2]string{{"params.go", "validateFeeDenom"}, {"params.go", "validateFeeRegister"}, {"params.go", "validateFeeRecord"}, {"params.go", "validateFeePurchaseStorage"}, {"params.go", "validateDefaultStorageLimit"}, {"params.go", "validateMaxStorageLimit"}, {"params.go", "Params.Validate"}, {"genesis.go", "NewGenesisState"}}, goFiles: []string{"register.go", "record.go", "msg_server.go", "grpc_query.go"},
 		want: []string{"QuickCheckHeightIsNew", "GetMaxPurchasableSlots", "IncreaseInStateStorage", "RegisterNewWrkChain", "RecordNewWrkchainHashes",
 			"RegisterWrkChain", "RecordWrkChainBlock", "PurchaseWrkChainStateStorage", "UpdateParams", "InitGenesis", "ExportGenesis", "CheckIsWrkChainTx", "checkWrkchainFees",
@@ -2383,10 +2397,10 @@ func writeKeeper(repo, module, typesOut, keeperOut string) {
 	sort.Strings(allNames)
 	var sb strings.Builder
 	sb.WriteString("(* GENERATED by /verif/translator (gokeeper.go) from /repo/x/" + cur.name + "/keeper/{" + strings.Join(cur.goFiles, ",") + "} on every check.\n")
-	if cur.world == "sworld" {
+	if strings.HasSuffix(cur.keeperMod, "OnStore") {
 		sb.WriteString("   SECOND rendering of the same keeper and message-server code: its store primitives are the GENERATED store accessors\n")
-		sb.WriteString("   (GeneratedStreamStore.v) over the byte-keyed store, through the adapters of model/StreamStoreWorld.v.\n")
-		sb.WriteString("   proofs/GeneratedStreamOnStoreEq.v proves that it simulates the rendering over the hand-written primitives. Do not edit. *)\n")
+		sb.WriteString("   (Generated<Module>Store.v) over the byte-keyed store, through the adapters of model/<Module>StoreWorld.v.\n")
+		sb.WriteString("   proofs/Generated<Module>OnStoreEq.v proves that it simulates the rendering over the hand-written primitives. Do not edit. *)\n")
 	} else {
 		sb.WriteString("   State-passing rendering of the keeper and message-server code against the hand-written primitives it imports.\n")
 		sb.WriteString("   The proofs/Generated*Eq.v files prove these equal to the hand-written model. Do not edit. *)\n")
